@@ -176,10 +176,13 @@ def oracle(c, o):
             return "empty input did not give empty arrays"
     if c["vertices"] and all(x < -S.TOL for x in d) and all(sel) and (full["v"] or full["f"] or full["map"]):
         return "mesh wholly behind the plane did not give empty arrays"
-    mag = max([Fr(0)] + [abs(x) for v in V for x in v] + [abs(x) for x in ref])  # no absolute floor
-    loose = S.REL
+    ltol, feat = S.length_tolerance(c)  # 1e-11 * mesh size + 4 ulp of the coordinates; feature size
     # idempotence
     rs = o.get("reslice")
+    if rs is not None and c.get("far") and any(v not in c["vertices"] for v in full["v"]):
+        # far from the origin one ulp of a coordinate (up to 4.8e-7) exceeds the 1e-8 band: a cut vertex cannot be stored on
+        # the plane, so the second call legitimately classifies it as in front / behind (see ASSUMPTIONS)
+        rs = None
     if rs is not None:
         f = wellformed(rs, len(full["f"]), True, "re-slice")
         if f:
@@ -202,7 +205,7 @@ def oracle(c, o):
             for tri in fr_.get(i, []) + bk_.get(i, []):
                 tot = [x + y for x, y in zip(tot, S.varea2([S.F3(p) for p in tri]))]
             want = [x * (2 if both else 1) for x in a]
-            if not S.close_vec(tot, want, loose * 100, mag ** 2):
+            if not S.close_vec(tot, want, 100 * ltol, feat):
                 return ("face %d: area kept in front plus area kept behind the flipped plane is %s, expected %s"
                         % (i, [float(x) for x in tot], [float(x) for x in want]))
     # independence of face order and of vertex numbering
@@ -211,14 +214,14 @@ def oracle(c, o):
         f = wellformed(pm["res"], nf, True, "permuted-faces result")
         if f:
             return f
-        if not same_groups(by_source(full), by_source(pm["res"], pm["perm"]), Fr(1, 10 ** 12), mag):
+        if not same_groups(by_source(full), by_source(pm["res"], pm["perm"]), Fr(1), ltol):
             return "result depends on the order of the faces (permutation %s)" % pm["perm"]
     rl = o.get("relabel")
     if rl is not None:
         f = wellformed(rl["res"], nf, True, "relabelled-vertices result")
         if f:
             return f
-        if not same_groups(by_source(full), by_source(rl["res"]), Fr(1, 10 ** 12), mag):
+        if not same_groups(by_source(full), by_source(rl["res"]), Fr(1), ltol):
             return "result depends on how the vertices are numbered"
     return None
 
